@@ -165,7 +165,8 @@ TIE_THEOREM = {"Secs": "secs_tie", "NoteDur": "noteDur_tie", "BpmDecode": "bpmDe
                "ComposeSync": ["C08_bpm_code", "C08_ts_lower_code"],
                "ComposeRate": ["C16_nonpositive_code", "C16_value_code"],
                # loops and glue, dumped as terms of the imperative embedding (Model/Imp.lean, Gen/Imp.lean)
-               "LoopEvents": ["dataToEvents_tie"], "LoopSp": ["spData_tie"], "LoopGroups": ["buildNoteEvents_tie"],
+               "LoopEvents": ["dataToEvents_tie", "dataToBpmEvents_tie", "dataToAnchorEvents_tie"], "LoopSp": ["spData_tie"], "LoopGroups": ["buildNoteEvents_tie"],
+               "LoopValid": ["bpmEventsPostInit_tie", "syncPostInit_tie"], "LoopDispatch": ["parseData_tie"], "ComposeLoopDispatch": ["dispatchV_eq"],
                # … and what they say about the hand model's functions (the subjects of the property theorems)
                "ComposeLoopEvents": ["dataToEvents_code"], "ComposeLoopSp": ["spData_code"], "ComposeLoopGroups": ["buildNoteEvents_code"]}
 
